@@ -367,6 +367,10 @@ def getitem_list(a, idx):
     if isinstance(idx, SIntList):
         k = c.fresh_index(idx.n, "g")
         c.oblige("safe", "list indices in bounds", T.and_(T.le(0, idx.at(k)), T.lt(idx.at(k), a.n)))
+        if a.dialect in ("cs", "abs"):
+            # CasADi 3.8: a 1x1 matrix indexed by [] is 1x0 (not 0x1) and no longer combines with
+            # column vectors (sampled by assumed/conformance)
+            c.oblige("safe", "no empty-list index into a 1x1 CasADi matrix (yields a 1x0 row)", T.not_(T.and_(T.eq(a.n, 1), T.eq(idx.n, 0))))
         src = freeze(a)
         return _mk(a.dialect, a.kind, idx.n, lambda j: src.at(idx.at(j)), (a,))
     if isinstance(idx, (list, tuple)):
